@@ -59,6 +59,9 @@ func TestSweep(t *testing.T) {
 		for i, pad := range []int{1024, 4099} {
 			Oracle.One(t, env, rec, "sweep", &Case{S: e.S.Name, D: e.D.Name, Amps: bAmps[ds], Pad: pad, Fix: 1 + i})
 		}
+		for _, ch := range []int{2, 3, 8} {
+			Oracle.One(t, env, rec, "sweep", &Case{S: e.S.Name, D: e.D.Name, Amps: bAmps[ds], Ch: ch})
+		}
 		if ds == 8 { // every 8-bit code, alone in short buffers and repeated in long ones
 			all := make([]int64, 256)
 			for i := range all {
@@ -66,6 +69,14 @@ func TestSweep(t *testing.T) {
 			}
 			for _, pad := range []int{0, 1024, 4353, 70001} {
 				Oracle.One(t, env, rec, "sweep", &Case{S: e.S.Name, D: e.D.Name, Amps: all, Pad: pad})
+			}
+			for _, ch := range []int{2, 3, 5} { // the same codes interleaved over several channels, in ascending and descending order
+				rev := make([]int64, len(all))
+				for i := range all {
+					rev[i] = all[len(all)-1-i]
+				}
+				Oracle.One(t, env, rec, "sweep", &Case{S: e.S.Name, D: e.D.Name, Amps: all, Ch: ch})
+				Oracle.One(t, env, rec, "sweep", &Case{S: e.S.Name, D: e.D.Name, Amps: rev, Ch: ch, Fix: 1})
 			}
 			for i := range all {
 				Oracle.One(t, env, rec, "sweep", &Case{S: e.S.Name, D: e.D.Name, Amps: all[i : i+1]})
